@@ -6,7 +6,7 @@
    Classes 12, 17 .. 20 (MeshETurbo, AnamEmpirical, AnamDiscreteDD / IR, DbLine) are the models of the readers WITH the guards of the
    proposed fixes/C09_19 .. C09_22: the check compares them only when the implementation shows the guards. Executable only. *)
 From Coq Require Import List ZArith QArith Bool.
-From Gst Require Import lib.Sx C09.Model C09.Readers C09.Readers2 C09.Readers3 C09.Spec C09.Readers4.
+From Gst Require Import lib.Sx C09.Model C09.Readers C09.Readers2 C09.Readers3 C09.Spec C09.Readers4 C09.Readers5.
 Import ListNotations.
 Local Open Scope Z_scope.
 
@@ -68,8 +68,18 @@ Definition ofCsv (o : csvout) : sx :=
   end.
 Definition run_csv (v cap : Z) (f : list Z) : sx :=
   let E := mkEnv cfg_fixed cap (S (length f)) (Z.of_nat (length f)) p_all in
-  let o1 := ofCsv (db_from_csv E true false (csv_variant v) f) in
-  L [o1; o1; ofCsv (db_from_csv E false false (csv_variant v) f); ofCsv (db_from_csv E true true (csv_variant v) f)].
+  (* the code as it is now: fixes/C09_15 and C09_18 are in /repo; third = the reader before them *)
+  let o1 := ofCsv (db_from_csv E true true (csv_variant v) f) in
+  L [o1; o1; ofCsv (db_from_csv E false false (csv_variant v) f)].
+
+(* class 43: the BMP reader on the bytes (no fuel, no cap: one model) *)
+Definition ofBmp (o : bmpout) : sx :=
+  match o with
+  | BmpFail => L [I 0; L []; I 0]
+  | BmpOOB => L [I 3; I 110]
+  | BmpOk nx0 nx1 dx0 dx1 tab => L [I 1; L [I nx0; I nx1; ofNum dx0; ofNum dx1; ofZs tab]; I 0; ofB true]
+  end.
+Definition run_bmp (f : list Z) : sx := let o := ofBmp (bmp_read f) in L [o; o; o].
 
 Definition run (c : sx) : sx :=
   match c with
@@ -100,6 +110,7 @@ Definition run (c : sx) : sx :=
           else if cls =? 18 then run3 false ofAnamDD (fun _ => true) load_AnamDD cap b f
           else if cls =? 19 then run3 false ofAnamIR (fun _ => true) load_AnamIR cap b f
           else if cls =? 20 then run3 false ofDbLine (fun x => wf_db_b (dl_db x)) load_DbLine cap b f
+          else if cls =? 43 then run_bmp f
           else if (30 <=? cls) && (cls <=? 34) then run_csv (cls - 30) cap f
           else sx_error 2
       end
